@@ -21,7 +21,7 @@ ASSUMPTIONS = [
     "the 2^128 key space is represented by a structured family (all-zero, all-ff, single-bit, ramp, LCG keys)",
     "hashlib's HMAC-SHA256 and the FIPS-197 reference AES are the ground truth",
 ]
-BOUNDS = {"quick": {"lens": list(range(0, 49)) + [1000], "k": 1, "fault_sizes": (0, 17, 40)}, "thorough": {"lens": list(range(0, 97)) + [1000, 4096], "k": 2, "fault_sizes": (0, 17, 40, 63)}}
+BOUNDS = {"quick": {"lens": list(range(0, 97)) + [1000], "k": 2, "fault_sizes": (0, 17, 40)}, "thorough": {"lens": list(range(0, 161)) + [1000, 4096], "k": 2, "fault_sizes": (0, 1, 15, 16, 17, 31, 32, 33, 40, 63, 64)}}
 
 DEFAULT_IV = b"abcdefghijklmnop"
 
